@@ -85,6 +85,15 @@ fn main() {
                 None => 2,
             }
         }
+        Some("determinism") => {
+            // hsim determinism <prop> <scenarios>
+            let prop = args.get(2).cloned().unwrap_or_default();
+            let n: usize = args.get(3).and_then(|s| s.parse().ok()).unwrap_or(200);
+            match props::find(&prop) {
+                Some(spec) => batch::determinism(&spec, env_u64("VERIF_SEED", 20260922), n, env_u64("HSIM_THREADS", 16) as usize),
+                None => 2,
+            }
+        }
         Some("replay") => match args.get(2) {
             Some(path) => batch::replay(path),
             None => 2,
